@@ -241,7 +241,7 @@ def C10(tier, seed):
     res = Result("C10", "model_checking")
     out = rundir("C10")
     exe = vlib.build("asan")
-    m = vlib.model_check("MC_Relativize", cfg="MC_Relativize_t.cfg" if tier == "thorough" else "MC_Relativize.cfg", timeout=3000)
+    m = vlib.model_check("MC_Relativize", cfg="MC_Relativize_t.cfg" if tier == "thorough" else "MC_Relativize.cfg", timeout=14400 if tier == "thorough" else 3000)   # (thorough: ~40 min on 16 idle cores, several times that on a loaded machine)
     res.add_model(m, "MC_Relativize (the relation RelativizeOK is never empty: the function RelativizeIdeal is in it for every (source, base, mode); the closed forms of 'a reference without scheme / with an absolute path can resolve to S' agree with a finite witness search; error codes)")
     h = vlib.run_harness(exe, ["algebra", "--mode", "removebase", "--n", "400000" if tier == "thorough" else "30000", "--seed", str(seed), "--tier", tier], out, "removebase")
     res.violations += harness_crash_violations(h, "C10")
